@@ -84,7 +84,8 @@ def o1b(W, ob):
                          '%s queues `%s`' % (short(f.path), qa[:100]), where(f, q.line))
             g = G.guard(w['bb'])
             # the only condition is frame != NULL (plus iteration / handle-kind atoms)
-            extra = [a for c in g for a in c if a[0] != 'is' and not (a[0] == 'ne' and a[2] == -1)]
+            extra = [a for c in g for a in c if a[0] != 'is' and not (a[0] == 'ne' and a[2] == -1 and len(a[1]) == 1 and
+                                                                    (a[1][0][0].endswith('.frame') or 'add_local_input(' in a[1][0][0]))]
             ob.check(not extra, '%s|announce-unconditionally' % short(f.path), 'every inserted frame (!= NULL) is announced',
                      'the announcement in %s is additionally conditioned: %s' % (short(f.path), dnf_str(g)[-200:]), where(f, w['line']))
         sends = sites(W, f, P2P + '::send_ready_outgoing_inputs_to_remotes')
